@@ -820,6 +820,8 @@ class NodeFor:
                     else:
                         for i in range(len(self.identifiers)):
                             environment.remove(self.identifiers[i])
+            except CklRuntimeError:
+                raise
             except Exception:
                 raise CklRuntimeError(
                     ValueString("ERROR"), "Cannot read from input", self.pos
